@@ -169,11 +169,16 @@ class Explorer:
         self.states += 1
         return True
 
-    def linear(self, idx, tts, parsing, order, nm=None):
+    def linear(self, idx, tts, parsing, order, nm=None, layout=0):
         nm = nm or names(len(tts))
         code = adf_text(tts, nm)
+        if layout == 1:
+            # the documented layout freedom: white space after facts and around commas - here line breaks
+            code = code.replace(",", ",\n  ").replace(").", ").\n")
+        elif layout == 2:
+            code = code.replace(",", " ,\t").replace(").", "). \n\n")
         name = "p%d%s" % (idx, parsing)
-        case = {"type": "linear", "tts": list(tts), "code": code, "parsing": parsing, "order": order, "solve_first": idx % 2 == 1, "labels": nm}
+        case = {"type": "linear", "tts": list(tts), "code": code, "parsing": parsing, "order": order, "solve_first": idx % 2 == 1, "labels": nm, "layout": layout}
         if not self.add_problem(name, code, parsing, idx % 2 == 1, case):
             return
         st, d = self.get(name)
@@ -435,6 +440,10 @@ def worker(server_bin, spec):
                 j = li * 4 + ti
                 if j % of == shard:
                     ex.linear(5000 + j, tts, ("Naive", "Hybrid")[(li + ti) % 2], [(k + j) % 6 for k in range(6)], nm=nm)
+        # layouts: line breaks / blanks and tabs after facts and around commas (plain labels)
+        for j, (tts, lay) in enumerate([((6, 9), 1), ((0xe, 0x1), 2), ((0x5, 0xc), 1), ((0x8, 0x6), 2), ((0x9, 0x6), 1), ((0x6, 0x9), 2)]):
+            if j % of == shard:
+                ex.linear(6000 + j, tts, ("Naive", "Hybrid")[j % 2], [(k + j) % 6 for k in range(6)], layout=lay)
         # larger codes (12 statements: variable positions 10 and 11 exist), decided by their grounded interpretation
         for j in range(4 if quick else 12):
             if j % of == shard:
@@ -481,7 +490,7 @@ def replay(server_bin, case):
             ex.reuse(0, tuple(case["tts1"]), tuple(case["tts2"]), case["parsing"], case["stale"])
         else:
             idx = 1 if case.get("solve_first") else 0
-            ex.linear(idx, tuple(case["tts"]), case["parsing"], case.get("order", list(range(6))), nm=case.get("labels"))
+            ex.linear(idx, tuple(case["tts"]), case["parsing"], case.get("order", list(range(6))), nm=case.get("labels"), layout=case.get("layout", 0))
     finally:
         svc.close()
     return ex.viol
